@@ -2,7 +2,7 @@
 
 // Package vsync is a drop-in for the parts of package "sync" used by the space keepers (import rewritten
 // by the /verif driver for the files listed under "sync_rewrite"). Everything is the real thing, except
-// that acquiring an RWMutex first calls a harness hook: the harness turns each acquisition by one of its
+// that acquiring a Mutex or an RWMutex first calls a harness hook: the harness turns each acquisition by one of its
 // operation goroutines into a scheduling point (the goroutine parks at a gate until the explorer lets it
 // go on), so that other calls can be ordered between the lock scopes of one call.
 package vsync
@@ -13,7 +13,6 @@ import (
 )
 
 type (
-	Mutex     = sync.Mutex
 	WaitGroup = sync.WaitGroup
 	Once      = sync.Once
 	Map       = sync.Map
@@ -34,6 +33,18 @@ func SetHook(f func(kind string)) {
 	}
 	hook.Store(&f)
 }
+
+// Mutex: as sync.Mutex, with the hook called (kind "Mutex.Lock") before every Lock.
+type Mutex struct{ mu sync.Mutex }
+
+func (m *Mutex) Lock() {
+	if h := hook.Load(); h != nil {
+		(*h)("Mutex.Lock")
+	}
+	m.mu.Lock()
+}
+func (m *Mutex) Unlock()       { m.mu.Unlock() }
+func (m *Mutex) TryLock() bool { return m.mu.TryLock() }
 
 type RWMutex struct{ mu sync.RWMutex }
 
